@@ -45,6 +45,15 @@ def run(tier):
         raise core.ToolError("regression config MC_Stream_noD19 was not rejected: design-level check is vacuous")
     covsub, covsubstats = stream.cover_histories(pairs=(tier == "thorough"), cfg="Cover_Stream_sub")
     cov = cov + covsub
+    # mode changes combined with binary content and with renames
+    mmode = tlc.run_tlc("MC_Stream", cfg="MC_Stream_mode", workers=8, coverage=False, heap="8g", timeout=1800)
+    tlc.require_ok(mmode, "MC_Stream_mode")
+    cex += [v for t, v in mmode.printed if t == "CEX"][:3]
+    reg21 = tlc.run_tlc("MC_Stream", cfg="MC_Stream_noD21", workers=4, coverage=False, timeout=600)
+    if not reg21.violated:
+        raise core.ToolError("regression config MC_Stream_noD21 was not rejected: design-level check is vacuous")
+    covmode, covmodestats = stream.cover_histories(pairs=(tier == "thorough"), cfg="Cover_Stream_mode")
+    cov = cov + covmode
     for cfg in ("bare", "titled"):      # plain diff -u / diff -ru sources
         cdu, _ = stream.cover_histories(pairs=(tier == "thorough"), cfg=f"Cover_DiffU_{cfg}", module="Cover_DiffU")
         cov = cov + cdu
@@ -59,6 +68,9 @@ def run(tier):
         plans.append(stream.Plan("rs/" + name, rnd.sample(cov, min(per, len(cov))), [], None, skin=skin))
     plans.append(stream.Plan("rs/arrow+numbers", rnd.sample(cov, min(per, len(cov))),
                              ["--right-arrow", "=>", "--line-numbers"], None, skin={}))
+    # hunk headers are exempt from --max-line-length: a long code fragment arrives whole (two-way and combined hunks)
+    plans.append(stream.Plan("rs/longfrag+maxlen", covcc + rnd.sample(cov, min(per, len(cov))),
+                             ["--max-line-length", "100"], None, skin={"frag": "long"}))
     res = stream.execute_plans(plans)
     failed, n = stream.validate_runs([x[4] for x in res])
     log(f"[{PID}] replayed {n} runs, {len(failed)} rejected by Obs_Stream")
@@ -78,9 +90,9 @@ def run(tier):
         "distinct_nontrivial": len({json.dumps(x[1], sort_keys=True) + x[0].name for x in res}),
         "rule": "Env_Git histories (all up to ReplayLen, plus transition cover of the abstract state graph) x path skins "
                 f"{sorted(SKINS)}; distinct = distinct (history, skin)",
-        "transition_cover": covstats, "transition_cover_submodule": covsubstats, "states_submodule_model": msub.distinct,
+        "transition_cover": covstats, "transition_cover_submodule": covsubstats, "transition_cover_mode": covmodestats, "states_mode_model": mmode.distinct, "states_submodule_model": msub.distinct,
         "drift": len(V.drift), "known_findings_hit": len(V.known_hit),
-        "regression_model_rejected": reg.violated and reg19.violated,
+        "regression_model_rejected": reg.violated and reg19.violated and reg21.violated,
         "samples": [{"history": stream.shape(x[1])[:300], "config": x[0].name,
                      "stdin": x[2].decode("utf-8", "replace")[:600]} for x in rnd.sample(res, min(3, len(res)))],
         "exhaustive": True,
